@@ -1214,7 +1214,13 @@ func (g *gen) bursts() Scenario {
 // A sender that crafts increasing timestamps and fires valid initiations back to back: after
 // the first is answered, the ones that follow inside 1/50 s must be dropped (one at a time, each
 // after the device has settled: no two of them race through different handshake workers).
-func (g *gen) rapidFire() Scenario {
+func (g *gen) rapidFire() Scenario { return g.rapidFireOpt(false) }
+
+// The same with a Down/Up right after the answered initiation: the flood limit
+// (lastInitiationConsumption) must survive Peer.Stop/Start like lastTimestamp does.
+func (g *gen) rapidFireAcrossRestart() Scenario { return g.rapidFireOpt(true) }
+
+func (g *gen) rapidFireOpt(restart bool) Scenario {
 	p := g.peer()
 	var st []Step
 	if g.r.Intn(2) == 0 {
@@ -1222,6 +1228,11 @@ func (g *gen) rapidFire() Scenario {
 	}
 	first := g.msg("init", p)
 	st = append(st, stepMsg(first))
+	name := "rapid-fire"
+	if restart {
+		st = append(st, Step{Op: "restart"})
+		name = "rapid-fire-across-restart"
+	}
 	var burst []*MsgSpec
 	for i := 0; i < 2+g.r.Intn(4); i++ {
 		m := g.msg("init", p)
@@ -1231,7 +1242,7 @@ func (g *gen) rapidFire() Scenario {
 	}
 	last := burst[len(burst)-1]
 	st = append(st, stepSleep(60), stepMsg(replayOf(g, last, 3)), stepMsg(g.msg("init", p)), stepMsg(replayOf(g, burst[0], 4)))
-	return Scenario{Gen: "rapid-fire", Steps: st}
+	return Scenario{Gen: name, Steps: st}
 }
 
 func f7Scenario(aligned bool) Scenario {
@@ -1304,6 +1315,7 @@ func generate(seed int64, n int, tier string, f7rounds int) []Scenario {
 	fixed := []func(*gen) Scenario{(*gen).lengths, (*gen).substitutions, (*gen).timestamps, (*gen).flood, (*gen).superseded, (*gen).strangers,
 		(*gen).underLoad, (*gen).underLoad, (*gen).restartReplay, (*gen).restartReplay,
 		(*gen).rapidFire, (*gen).rapidFire, (*gen).rapidFire, (*gen).rapidFire,
+		(*gen).rapidFireAcrossRestart, (*gen).rapidFireAcrossRestart, (*gen).rapidFireAcrossRestart, (*gen).rapidFireAcrossRestart,
 		(*gen).sessionIndex, (*gen).sessionIndex, (*gen).sessionIndex, (*gen).bursts, (*gen).bursts, (*gen).bursts, (*gen).bursts}
 	for _, f := range fixed {
 		scs = append(scs, f(mk()))
@@ -1332,8 +1344,10 @@ func generate(seed int64, n int, tier string, f7rounds int) []Scenario {
 			scs = append(scs, mk().restartReplay())
 		case x < 93:
 			scs = append(scs, mk().sessionIndex())
-		case x < 96:
+		case x < 95:
 			scs = append(scs, mk().rapidFire())
+		case x < 97:
+			scs = append(scs, mk().rapidFireAcrossRestart())
 		default:
 			scs = append(scs, mk().mixture())
 		}
